@@ -53,11 +53,11 @@ type gm struct {
 	hist  []Op
 	cls   map[string]bool
 	// refHist[source][target][dataset][pred]: every reference ever written (any version)
-	refHist map[string]map[string]map[string]map[string]bool
-	dsIDs   map[uint32]string // internal dataset ids ever handed out -> owner
-	deadIDs []uint32          // internal ids of deleted datasets
-	tokens  map[string]int    // job-token objects stored (crash rig)
-	maxBatch int              // cap on generated batch size (0 = 14)
+	refHist  map[string]map[string]map[string]map[string]bool
+	dsIDs    map[uint32]string          // internal dataset ids ever handed out -> owner
+	deadIDs  []uint32                   // internal ids of deleted datasets
+	tokens   map[string]int             // job-token objects stored (crash rig)
+	maxBatch int                        // cap on generated batch size (0 = 14)
 	pubNS    map[*kit.MDataset][]string // public namespaces last set for a dataset incarnation (C19)
 }
 
